@@ -25,9 +25,18 @@ pub fn stats_case<T: Sc>(rng: &mut Rng, idx: usize, thorough: bool) -> FitCase<T
     if weak {
         recipe.fns.push(FnSpec { kind: Kind::LinSmall, params: vec![] });
     }
+    // one case in ten: an INTERPOLATION problem - one more sample than parameters, one of them with
+    // weight exactly zero: the fit passes through the remaining points and very often ends with
+    // weighted residuals that are all EXACTLY zero (reduced chi2 = 0, standard error 0, covariance 0)
+    let interp = idx % 10 == 3;
+    if interp {
+        let kind = if (idx / 10) % 2 == 0 { Kind::Exp } else { Kind::Lorentz };
+        recipe = Recipe { names: vec![NAMES[0].to_string()], fns: vec![FnSpec { kind, params: vec![0] }], x: vec![] };
+    }
+    let weak = weak && !interp;
     let total = recipe.m() + recipe.p();
     let deltas: [i64; 12] = [-2, -1, 0, 1, 1, 2, 2, 3, 5, 8, 20, 3];
-    let delta = deltas[idx % deltas.len()];
+    let delta = if interp { 1 } else { deltas[idx % deltas.len()] };
     let n = ((total as i64 + delta).max(1)) as usize;
     let n = if thorough && delta == 20 { n + rng.below(40) } else { n };
     recipe.x = (0..n)
@@ -39,7 +48,9 @@ pub fn stats_case<T: Sc>(rng: &mut Rng, idx: usize, thorough: bool) -> FitCase<T
     let m = recipe.m();
     // overall amplitude of the signal: the columns (dPhi/dalpha_k)·c of H scale with it, the columns
     // Phi do not (badly column-scaled H^T H; tiny singular values of H that are NOT a rank defect)
-    let amp: f64 = if idx % 3 == 1 {
+    let amp: f64 = if interp {
+        1.0
+    } else if idx % 3 == 1 {
         if T::WIDTH == 32 { *rng.pick(&[1e-4, 1e4]) } else { *rng.pick(&[1e-9, 1e-4, 1e4, 1e6]) }
     } else {
         1.0
@@ -47,9 +58,13 @@ pub fn stats_case<T: Sc>(rng: &mut Rng, idx: usize, thorough: bool) -> FitCase<T
     let coef = DVector::from_iterator(m, (0..m).map(|_| T::of(amp * (rng.uniform(1.0, 3.0) * 16.0).round() / 16.0)));
     let col = &phi * coef;
     let noise = amp * *rng.pick(&[1e-3, 1e-2, 0.05]);
-    let wkind = WKINDS[idx % WKINDS.len()];
+    let wkind = if interp { WKind::Zeros } else { WKINDS[idx % WKINDS.len()] };
     // zero weights are legal: the degrees of freedom stay N - M - P
-    let w = random_weights(rng, wkind, n, m);
+    let mut w = random_weights(rng, wkind, n, m);
+    if interp {
+        let z = (idx / 20) % n;
+        w = Some((0..n).map(|i| if i == z { 0.0 } else { 1.0 + (i as f64) * 0.5 }).collect());
+    }
     // a user-chosen singular-value threshold concerns the linear sub-problem only
     let eps: Option<T> = if weak {
         Some(T::of(1e-2))
@@ -84,7 +99,7 @@ pub fn stats_case<T: Sc>(rng: &mut Rng, idx: usize, thorough: bool) -> FitCase<T
     let threads = if base.flavour.is_par() { 2 } else { 0 };
     // most fits converge; some are made to give up (patience exhausted, tolerances below machine
     // precision): a fit that FAILED must never come back with statistics
-    let cfg = match idx % 11 {
+    let cfg = match if interp { 0 } else { idx % 11 } {
         4 => LmCfg { ftol: 1e-15, xtol: 1e-15, gtol: 1e-15, stepbound: 100.0, patience: 1, scale_diag: true, default: false },
         9 => LmCfg { ftol: 0.0, xtol: 0.0, gtol: 0.0, stepbound: 100.0, patience: 100, scale_diag: true, default: false },
         _ => LmCfg::default_cfg(),
@@ -265,7 +280,8 @@ pub fn stream(out: &mut Out, seed: u64, thorough: bool) {
     let mut rng = Rng::new(seed ^ 0x57A75);
     let n = if thorough { 3000 } else { 240 };
     for i in 0..n {
-        if i % 6 == 5 {
+        // (the interpolation cases are single precision: there an exact fit is the rule)
+        if i % 6 == 5 || i % 10 == 3 {
             let c = stats_case::<f32>(&mut rng, i, thorough);
             emit_stats_case(out, &c);
         } else {
